@@ -331,3 +331,71 @@ def equilibrated_kkt(u):
     u.ensure(QAll(n, lambda q: vw.f(q) == -D.f(q)), "var_weights==-D[:n]")
     u.ensure(QAll(m, lambda q: cw.f(q) == D.f(q + n)), "cons_weights==D[n:]")
     u.ensure(vw.kind == "int" and cw.kind == "int", "weights_are_integers")
+
+
+@unit("C20.create_scaling.dispatch", ["C20", "C04", "C06"], [SC + "create_scaling"], config={"max_paths": 200})
+def create_scaling_dispatch(u):
+    """which scaling is built for which ScalingType, from which data: Nominal from (x_ref, c(x_ref)), GradJac from
+    (grad f(x_ref), J(x_ref)), KKT from (H(x_ref, y_ref), J(x_ref)); NoScaling gives None; an explicit scaling object
+    is handed back as it is; Custom without an object and a missing reference point are deliberate ValueErrors"""
+    from pyvc.values import Mat, Opaque
+
+    names = ["NoScaling", "Custom", "Nominal", "GradJac", "KKT"]
+    k = u.path.choose_n(len(names), "scaling type")
+    params = mk_params(u)
+    params.fields["scaling_type"] = u.enum("pygradflow.params.ScalingType", names[k])
+    given = u.path.choose("explicit scaling object given") if names[k] == "Custom" else False
+    sc_obj = u.obj(SC + "Scaling", var_weights=Opaque("vw"), cons_weights=Opaque("cw"), obj_weight=0) if given else None
+    params.fields["scaling"] = sc_obj
+    empty = u.path.choose("no constraints")
+    problem = mk_problem(u, m=0) if empty else mk_problem(u)
+    if not empty:
+        u.assume(problem.fields["num_cons"] > 0)
+    n, m = problem.fields["__n__"], problem.fields["num_cons"]
+    up = UserProblem(u, problem)
+    problem.fields["num_vars"] = n
+    made = []
+    A = u.it.abstract
+    for ctor in ("from_nominal_values", "from_grad_jac", "from_equilibrated_kkt"):
+        A[SC + "Scaling." + ctor] = (lambda c_: lambda it, *a, **kw: (made.append((c_, a)), Opaque("scaling:" + c_))[1])(ctor)
+    have_x = u.path.choose("primal reference point given")
+    have_y = u.path.choose("dual reference point given")
+    xr = u.vec("x_ref", n, region="USER") if have_x else None
+    yr = u.vec("y_ref", m, region="USER") if have_y else None
+    kind, val = u.raised(lambda: u.call(SC + "create_scaling", problem, params, xr, yr))
+    nm = names[k]
+    calls = {c[0]: c for c in up.calls}
+    if kind == "raise":
+        u.ensure(val.exc.name() == "ValueError", "raises_only{ValueError}", desc=f"escaping {val.exc!r} at {val.origin}")
+        expected = (nm == "Custom" and not given) or (nm in ("Nominal", "GradJac", "KKT") and not have_x) or (nm == "KKT" and not have_y)
+        u.ensure(expected, "ValueError_only_for(Custom_without_object,missing_reference_point)", desc=f"type {nm}, x given {have_x}, y given {have_y}")
+        u.ensure(not made, "no_scaling_built_when_raising")
+        return
+    if nm == "NoScaling":
+        u.ensure(val is None and not made and not up.calls, "NoScaling=>None,nothing_evaluated")
+    elif nm == "Custom":
+        u.ensure(given and val is sc_obj and not made and not up.calls, "Custom=>the_caller's_scaling_object_itself")
+    else:
+        want = {"Nominal": "from_nominal_values", "GradJac": "from_grad_jac", "KKT": "from_equilibrated_kkt"}[nm]
+        ok = u.ensure(len(made) == 1 and made[0][0] == want, f"{nm}=>exactly_one_scaling_built_by_{want}", desc=f"built: {[c for c, _ in made]}")
+        if ok:
+            args = made[0][1]
+            u.ensure(isinstance(val, Opaque) and val.tag == "scaling:" + want, f"{nm}=>that_scaling_is_returned")
+            at_ref = all(c[1] is xr for c in up.calls)
+            u.ensure(at_ref, f"{nm}=>callbacks_evaluated_at_the_reference_point_only")
+            if nm == "Nominal":
+                u.ensure(args[0] is xr, "Nominal:variable_magnitudes_are_the_reference_point")
+                if empty:
+                    u.ensure(isinstance(args[1], Arr) and (args[1].n == 0 if isinstance(args[1].n, int) else True) and "cons" not in calls, "Nominal:no_constraints=>empty_constraint_values,callback_not_called")
+                else:
+                    u.ensure(args[1] is up.ret.get("cons"), "Nominal:constraint_magnitudes_are_c(x_ref)")
+            if nm == "GradJac":
+                u.ensure(args[0] is up.ret.get("obj_grad"), "GradJac:gradient_is_grad_f(x_ref)")
+                u.ensure(empty or args[1] is up.ret.get("cons_jac"), "GradJac:Jacobian_is_J(x_ref)")
+            if nm == "KKT":
+                u.ensure(args[0] is up.ret.get("lag_hess") and calls.get("lag_hess", (None, None, None))[2] is yr, "KKT:Hessian_is_H(x_ref,y_ref)")
+                u.ensure(empty or args[1] is up.ret.get("cons_jac"), "KKT:Jacobian_is_J(x_ref)")
+            if empty and nm in ("GradJac", "KKT"):
+                J0 = args[1]
+                u.ensure(isinstance(J0, Mat) and "cons_jac" not in calls, f"{nm}:no_constraints=>empty_Jacobian,callback_not_called")
+    u.cover("end")
